@@ -10,14 +10,16 @@ From Coq Require Import Lia.
 (* successful direct-algorithm cycles as (raises, curve value, request, written-or-shown value) *)
 (* [off] = number of raises before the event; the cycle that performs a raise issues "stalled request + 1",
    which is not a function of the curve value alone, so it is not a comparison point *)
-Fixpoint c07_points (off : Z) (l : list (hev * obs)) : list (Z * Z * Z * Z) :=
+(* the written value of a point is comparable when the cycle's own write succeeded: whatever happened before
+   (failed writes, foreign writers), such a cycle leaves the fan at the map's output for its request (C05) *)
+Fixpoint c07_points (off : Z) (l : list (hev * obs)) : list (Z * Z * Z * Z * bool) :=
   match l with
   | [] => []
   | (Cycle i, o) :: r =>
       if negb (o_err o =? 0) then []
       else match ci_curve i, o_req o with
            | Some v, Some q =>
-               if o_offset o =? off then (o_offset o, v, q, o_pwm o) :: c07_points (o_offset o) r
+               if o_offset o =? off then (o_offset o, v, q, o_pwm o, ci_write_ok i) :: c07_points (o_offset o) r
                else c07_points (o_offset o) r
            | _, _ => c07_points (o_offset o) r
            end
@@ -31,20 +33,15 @@ Fixpoint nondec_snd (pm : list (Z * Z)) : bool :=
   end.
 
 (* every pair of points with the same number of raises is ordered consistently *)
-Definition c07_pairs_ok (check_written : bool) (pts : list (Z * Z * Z * Z)) : bool :=
-  forallb (fun p1 => let '(o1, v1, r1, w1) := p1 in
-    forallb (fun p2 => let '(o2, v2, r2, w2) := p2 in
-      if (o1 =? o2) && (v1 <=? v2) then (r1 <=? r2) && (if check_written then w1 <=? w2 else true) else true) pts) pts.
+Definition c07_pairs_ok (check_written : bool) (pts : list (Z * Z * Z * Z * bool)) : bool :=
+  forallb (fun p1 => let '(o1, v1, r1, w1, k1) := p1 in
+    forallb (fun p2 => let '(o2, v2, r2, w2, k2) := p2 in
+      if (o1 =? o2) && (v1 <=? v2) then (r1 <=? r2) && (if check_written && k1 && k2 then w1 <=? w2 else true) else true) pts) pts.
 
 Definition holdsb (c : case) : bool :=
   match k_alg c with
   | Direct None =>
-      (* the written value is compared only when every write of the history succeeded and nothing interfered *)
-      let clean := forallb (fun e => match e with
-                                      | Cycle i => ci_write_ok i && ci_read_ok i
-                                      | Ext _ _ => false
-                                      | Poll _ => true end) (k_hist c) in
-      c07_pairs_ok (clean && nondec_snd (k_pm c) && (k_q c =? 1)) (c07_points 0 (zip (k_hist c) (k_obs c)))
+      c07_pairs_ok (nondec_snd (k_pm c) && (k_q c =? 1)) (c07_points 0 (zip (k_hist c) (k_obs c)))
   | _ => true
   end.
 
